@@ -308,8 +308,12 @@ class Prov:
 
     def call_term(self, bb):
         t = self.fn.blocks[bb]["term"]
-        name = callee_path(t) or ("<indirect:%s>" % t.get("func_ty", "?"))
+        name = callee_path(t)
         args = tuple(self.operand_term(a, bb, "term") for a in t["args"])
+        if name is None:
+            # a call through a function pointer / Fn value: the callee is a value like any other
+            name = "<indirect>"
+            args = (self.operand_term(t["func"], bb, "term"),) + args
         inl = inline_pure_helper(self.prog, name, args, self.fn.key)
         if inl is not None:
             return inl
@@ -371,14 +375,14 @@ class Prov:
         """identity of the memory `place` denotes (for effect summaries)"""
         l = place["l"]
         proj = place["p"]
-        if proj and proj[0][0] == "deref" and not (1 <= l <= self.fn.arg_count) and not _depth:
+        if proj and proj[0][0] == "deref" and not (1 <= l <= self.fn.arg_count) and _depth < 6:
             # `*r` where r is a reference temp created in this function (`&mut x`, a reborrow, a moved copy of one - e.g. the
             # parameter of an inlined helper): the memory is x itself
-            b = self._borrowed_lvalue({"k": "copy", "place": {"l": l, "p": []}}, bb, idx, 1)
+            b = self._borrowed_lvalue({"k": "copy", "place": {"l": l, "p": []}}, bb, idx, _depth + 1)
             if b[0] in ("local", "param", "field", "ret"):
                 t = b
                 for e in proj[1:]:
-                    t = self.project(t, e)
+                    t = self._project_lvalue(t, e)
                 return t
         if proj and proj[0][0] == "deref":
             t = self.local_term(l, bb, idx)
@@ -392,6 +396,27 @@ class Prov:
         for e in proj:
             t = self.project(t, e)
         return t
+
+    def _project_lvalue(self, t, e):
+        """project() for memory identities: `*(c.i)` where c is a closure / tuple / struct built in this function from a
+        reference is the memory that reference borrows (a closure that captured `&mut map` writes to `map`)"""
+        if e[0] == "deref" and t[0] == "field" and t[1][0] == "local" and str(t[2]).isdigit():
+            r = self._captured_ref(t[1][1], int(t[2]))
+            if r is not None:
+                return r
+        return self.project(t, e)
+
+    def _captured_ref(self, l, i):
+        if self._defs is None:
+            self._collect_defs()
+        ds = [d for d in self._defs if d[0] == l]
+        if len(ds) != 1 or ds[0][2] == "term":
+            return None
+        _, dbb, didx, payload = ds[0]
+        if payload["k"] != "aggr" or i >= len(payload["ops"]):
+            return None
+        b = self._borrowed_lvalue(payload["ops"][i], dbb, didx, 1)
+        return b if b[0] in ("local", "param", "field", "ret") else None
 
     def _moved_from_param(self, l, bb, idx):
         """index of the parameter whose value was MOVED into local l (through any chain of plain moves), else None: an
@@ -546,9 +571,16 @@ class Prov:
                 if len(pl["p"]) == 1 and pl["p"][0][0] == "deref" and not (1 <= pl["l"] <= self.fn.arg_count):
                     # `&mut *r`: a reborrow of what r borrows
                     inner = self._borrowed_lvalue({"k": "copy", "place": {"l": pl["l"], "p": []}}, dbb, didx, _depth + 1)
-                    outs.append(inner if inner[0] in ("local", "param", "field", "ret") else self.lvalue_term(pl, dbb, didx, 1))
+                    outs.append(inner if inner[0] in ("local", "param", "field", "ret") else self.lvalue_term(pl, dbb, didx, _depth + 1))
                 else:
-                    outs.append(self.lvalue_term(pl, dbb, didx, 1))
+                    outs.append(self.lvalue_term(pl, dbb, didx, _depth + 1))
+            elif didx != "term" and payload["k"] == "use" and payload["op"]["k"] in ("copy", "move") and payload["op"]["place"]["p"]:
+                # a reference read out of a closure environment / tuple built in this function: what was captured
+                lv = self.lvalue_term(payload["op"]["place"], dbb, didx, _depth + 1)
+                r = None
+                if lv[0] == "field" and lv[1][0] == "local" and str(lv[2]).isdigit():
+                    r = self._captured_ref(lv[1][1], int(lv[2]))
+                outs.append(r if r is not None else ("deref", self.def_term(di)))
             elif didx != "term" and payload["k"] == "use" and payload["op"]["k"] in ("copy", "move"):
                 # reborrow through a copy of another reference temp
                 outs.append(self._borrowed_lvalue(payload["op"], dbb, didx, _depth + 1))
@@ -762,3 +794,71 @@ def inline_pure_helper(prog, name, args, caller_key):
     if rt is None:
         return None
     return subst_params(rt, args)
+
+
+def resolve_closure_fields(t):
+    """after substituting a closure value for its environment parameter: `(closure).i` is the i-th captured term,
+    `*&x` is x"""
+    if not isinstance(t, tuple) or not t:
+        return t
+    k = t[0]
+    if k == "field":
+        base = resolve_closure_fields(t[1])
+        b = base
+        while b[0] in ("ref", "deref"):
+            b = b[1]
+        if b[0] == "closure" and str(t[2]).isdigit() and int(t[2]) < len(b[2]):
+            return b[2][int(t[2])]
+        return ("field", base, t[2])
+    if k == "deref":
+        inner = resolve_closure_fields(t[1])
+        return inner[1] if inner[0] == "ref" else ("deref", inner)
+    if k == "ref":
+        return ("ref", resolve_closure_fields(t[1])) + tuple(t[2:])
+    if k == "call":
+        return ("call", t[1], tuple(resolve_closure_fields(a) for a in t[2])) + tuple(t[3:])
+    if k == "aggr":
+        return ("aggr", t[1], t[2], tuple((f, resolve_closure_fields(x)) for f, x in t[3]))
+    if k in ("variant",):
+        return ("variant", resolve_closure_fields(t[1]), t[2])
+    if k in ("tryok", "discr"):
+        return (k, resolve_closure_fields(t[1]))
+    if k in ("tuple", "array"):
+        return (k, tuple(resolve_closure_fields(x) for x in t[1]))
+    if k == "phi":
+        return mk_phi([resolve_closure_fields(x) for x in t[1]])
+    return t
+
+
+class PathProv(Prov):
+    """Provenance along ONE acyclic path (a list of block indices): every local has exactly the definition that the path
+    executes last before the point of use, so there are no phi terms.  Used for loop-free functions whose paths are
+    enumerated (guards.path_rows)."""
+
+    def __init__(self, fn, path):
+        super().__init__(fn)
+        self.path = list(path)
+        self.pos = {b: i for i, b in enumerate(self.path)}
+        if self._defs is None:
+            self._collect_defs()
+
+    def reaching(self, l, bb, idx):
+        if bb not in self.pos:
+            return super().reaching(l, bb, idx)
+        stmts = self.fn.blocks[bb]["stmts"]
+        lim = len(stmts) if idx == "term" else idx
+        best = None
+        for di in self._by_block.get(bb, []):
+            d = self._defs[di]
+            if d[0] == l and d[2] != "term" and d[2] < lim:
+                best = di
+        if best is not None:
+            return frozenset([best])
+        for pb in reversed(self.path[:self.pos[bb]]):
+            last = None
+            for di in self._by_block.get(pb, []):
+                if self._defs[di][0] == l:
+                    last = di
+            if last is not None:
+                return frozenset([last])
+        return frozenset([-1])
